@@ -156,7 +156,7 @@ let run_cmds id (c : cfg) (v0 : ienv) (cmds : string) =
     List.iter (fun cmd ->
       incr k;
       if cmd = "s" then begin
-        let (v1, r) = inst_step low_s_strict no_tweak sha256 c !v in
+        let (v1, r) = inst_step low_s_strict oracle_tweak sha256 c !v in
         v := v1;
         match r with
         | StepRefused -> Printf.printf "R %s #%d atend\n" id !k
@@ -171,7 +171,7 @@ let run_cmds id (c : cfg) (v0 : ienv) (cmds : string) =
           | Some v1 -> v := v1; dump_env id !k 1 !last_exn v1
       end else if cmd = "c" then begin
         last_exn := "-";
-        let (v1, st) = dbg_continue low_s_strict no_tweak sha256 (continue_fuel !v) c !v in
+        let (v1, st) = dbg_continue low_s_strict oracle_tweak sha256 (continue_fuel !v) c !v in
         v := v1;
         match st with
         | SOk -> dump_env id !k 1 "-" v1
@@ -254,7 +254,7 @@ let do_tx h =
          | PtxExn -> line ^ " selexn"
          | PtxOk tin ->
            let txid = hash256 (txid_preimage tin) in
-           match select_input t txid (z_of_int (geti h "sel" (-1))) with
+           match select_input t tin txid (z_of_int (geti h "sel" (-1))) with
            | None -> line ^ " selfail"
            | Some (i, n) -> line ^ Printf.sprintf " sel=%s:%s intxid=%s" (string_of_z i) (string_of_z n) (rev_hex txid)) in
     print_string (line ^ "\n")
@@ -329,6 +329,44 @@ let do_tap h =
     Printf.printf "R %s addr=%s root=%s tweak=%s outkey=%s even=%d control=%s\n" id (string_of_ascii r.tr_address) (hex r.tr_root) (hex r.tr_tweak)
       (hex r.tr_output_key) (if r.tr_even then 1 else 0) (match r.tr_control with None -> "-" | Some c -> hex c)
 
+(* ---------------------------------------------------------------- spends *)
+let oracle_ecdsa key digest der = ask_bool (Printf.sprintf "ecdsa %s %s %s" (hex key) (hex digest) (hex der))
+let oracle_schnorr key digest sg = ask_bool (Printf.sprintf "schnorr %s %s %s" (hex key) (hex digest) (hex sg))
+
+let do_spend h =
+  let id = get h "id" "" in
+  match parse_transaction (ascii (unhexstr (get h "tx" ""))) with
+  | PtxFail -> Printf.printf "R %s txfail\n" id
+  | PtxExn -> Printf.printf "R %s txexn\n" id
+  | PtxOk (_, spend) ->
+    (match parse_tx (ascii (unhexstr (get h "txin" ""))) with
+     | PtxFail -> Printf.printf "R %s txinfail\n" id
+     | PtxExn -> Printf.printf "R %s txexn\n" id
+     | PtxOk funding ->
+       let txid = hash256 (txid_preimage funding) in
+       match select_input spend funding txid (z_of_int (geti h "sel" (-1))) with
+       | None -> Printf.printf "R %s txinfail\n" id
+       | Some (idx, vout) ->
+         match configure sha256 ripemd160 spend funding idx vout with
+         | CfgRefused -> Printf.printf "R %s refused\n" id
+         | CfgCrash -> Printf.printf "R %s CRASH\n" id
+         | CfgOk ss ->
+           let flags = z_of_string (get h "flags" "0") in
+           let cache = setup_txdata sha256 spend funding vout ss.ss_preamble in
+           let x = { x_tx = spend; x_nin = idx; x_amount = ss.ss_amount; x_cache = cache } in
+           let c = { c_flags = flags; c_sigver = ss.ss_sigver; c_allow_disabled = (geti h "z" 0 <> 0); c_pv_map = []; c_pv_keys = [];
+                     c_chk = tx_checker sha256 oracle_ecdsa oracle_schnorr x; c_hash = the_hashes } in
+           let v = setup_env c ss.ss_script ss.ss_stack ss.ss_successor ss.ss_ed ss.ss_tce in
+           if not v.i_operational then Printf.printf "R %s setupfail err=%s\n" id (string_of_z v.i_e.e_err)
+           else if pushonly_violation flags ss.ss_script ss.ss_successor then Printf.printf "R %s setupfail err=25\n" id
+           else begin
+             Printf.printf "R %s cfg sv=%s idx=%s vout=%s amount=%s pre=%d annex=%d\n" id (string_of_z ss.ss_sigver) (string_of_z idx) (string_of_z vout)
+               (string_of_z ss.ss_amount) (if ss.ss_preamble then 1 else 0)
+               (if ss.ss_ed.ed_annex_init then (if ss.ss_ed.ed_annex_present then 1 else 0) else -1);
+             dump_env id 0 1 "-" v;
+             run_cmds id c v (get h "cmds" "")
+           end)
+
 let run_case (l : string) =
   let (kind, h) = parse_line l in
   match kind with
@@ -337,6 +375,7 @@ let run_case (l : string) =
   | "snv" -> do_snv h
   | "script" -> do_script h
   | "btcc" -> do_btcc h
+  | "spend" -> do_spend h
   | "tx" -> do_tx h
   | "inl" -> do_inl h
   | "tf" -> do_tf h
